@@ -1,5 +1,7 @@
 /-
-  E7 (C18 part) — the materialisation state machine of one knowledge graph, as the pinned code runs it.
+  E7 (C18 part) — the materialisation state machine of one knowledge graph, as the code runs it AFTER the
+  four `fix:` commits fixes/C18-1..4 (transitive invalidation; the engine's rule registry follows every
+  catalogue change and is filled by enable_incremental; drop_relation notifies; no auto-materialisation).
 
   Mirrors (file:line of /repo at 0819470):
     src/derived_relations.rs   DerivedRelationsManager: register_rule 198, remove_rule 220,
@@ -137,11 +139,14 @@ def termConsts : List Term → List Int
   | .const c :: l => c :: termConsts l
   | .var _ :: l => termConsts l
 
-def progConsts (prog : List Clause) : Nat :=
-  (prog.map fun c => (termConsts c.head.args).length).foldl (· + ·) 0
+/-- the constants of the clause heads / the values stored in the inputs: together the active domain. -/
+def headConsts (prog : List Clause) : List Int := prog.flatMap fun c => termConsts c.head.args
 
-def inputSize (inputs : List (Name × List Tup)) : Nat :=
-  (inputs.map fun p => (p.2.map (·.length)).foldl (· + ·) 0).foldl (· + ·) 0
+def inputInts (inputs : List (Name × List Tup)) : List Int := inputs.flatMap fun p => p.2.flatten
+
+def progConsts (prog : List Clause) : Nat := (headConsts prog).length
+
+def inputSize (inputs : List (Name × List Tup)) : Nat := (inputInts inputs).length
 
 /-- more rounds than there are derivable tuples: |heads| · (|active domain| + 1)^maxArity + 2. -/
 def evalFuel (prog : List Clause) (inputs : List (Name × List Tup)) : Nat :=
@@ -259,34 +264,48 @@ def Inc.remove (i : Inc) (n : Name) : Inc :=
 def Inc.setMat (i : Inc) (n : Name) (ts : List Tup) : Inc :=
   { i with mats := aset i.mats n { tuples := ts, valid := true } }
 
-/-- the cascade loop of `compute_invalidation_set` over `derived_to_derived` (work-list with fuel). -/
-def cascade (i : Inc) : Nat → List Name → List Name → List Name
-  | 0, _, acc => acc
-  | _, [], acc => acc
-  | k + 1, r :: todo, acc =>
-    let deps := ((aget i.d2d r).getD []).filter fun d => isValid i d && !(acc.contains d)
-    let deps := dedupNames deps
-    cascade i k (todo ++ deps) (acc ++ deps)
+/-- the dependents of `x`: `base_to_derived[x]` chained with `derived_to_derived[x]`. -/
+def succs (i : Inc) (x : Name) : List Name := (aget i.b2d x).getD [] ++ (aget i.d2d x).getD []
 
-def invalidationSet (i : Inc) (base : Name) : List Name :=
-  let direct := ((aget i.b2d base).getD []).filter (isValid i)
-  cascade i (i.mats.length + 1) direct direct
+/-- `l ∪ ns`, order-preserving. -/
+def addNames (l : List Name) : List Name → List Name
+  | [] => l
+  | n :: ns => if n ∈ l then addNames l ns else addNames (l ++ [n]) ns
 
-/-- `notify_base_update`. -/
+def grow (i : Inc) (s : List Name) : List Name := addNames s (s.flatMap (succs i))
+
+def closeFuel (i : Inc) : Nat → List Name → List Name
+  | 0, s => s
+  | k + 1, s => let s' := grow i s; if s' = s then s else closeFuel i k s'
+
+/-- every name that is somebody's dependent. -/
+def depUniverse (i : Inc) : List Name := dedupNames (i.b2d.flatMap (·.2) ++ i.d2d.flatMap (·.2))
+
+def isClosed (i : Inc) (s : List Name) : Bool := (s.flatMap (succs i)).all (s.contains ·)
+
+/-- `compute_invalidation_set`'s work-list: everything reachable from `base` along dependency edges,
+    materialised or not. The code's loop runs until its `seen` set stops growing; here the closure is
+    iterated |universe|+1 times and CHECKED — were it not closed (it always is), every dependent in
+    the maps is taken instead, so that the result is closed under `succs` by construction. -/
+def reachFrom (i : Inc) (base : Name) : List Name :=
+  let s := closeFuel i ((depUniverse i).length + 1) (dedupNames (succs i base))
+  if isClosed i s then s else depUniverse i
+
+/-- `notify_base_update`: the valid materialisations among the transitive dependents are invalidated. -/
 def Inc.notify (i : Inc) (base : Name) : Inc :=
-  let inv := invalidationSet i base
+  let inv := reachFrom i base
   { i with mats := i.mats.map fun p => if p.1 ∈ inv then (p.1, { p.2 with valid := false }) else p }
 
-/-- `auto_materialize_rule` on the pinned tree: the program it builds ends with `?name(V0,…)`, which
-    `IQLEngine::execute_tuples` parses as a rule with head `?name` and rejects (head variables unbound), so the call
-    returns `Err` (a warning is printed) and nothing is stored. `autoMatWorks = true` is the variant a
-    repaired query line would give: evaluate ONLY the clauses of `name` over the base facts. -/
-def autoMat (autoMatWorks : Bool) (s : St) (i : Inc) (n : Name) : Inc :=
-  if autoMatWorks then
-    match aget s.catalog n with
-    | some (c :: cs) => i.setMat n (answer (evalProg (c :: cs) s.facts) ⟨n, allVars c.head.args.length⟩)
-    | _ => i
-  else i
+/-- `compile_rule_for_dd`: the body relations of ALL clauses of `n` other than `n` itself. -/
+def allDeps (cls : List Clause) (n : Name) : List Name :=
+  dedupNames ((cls.flatMap bodyRels).filter (· ≠ n))
+
+/-- `sync_rule_with_dd`: after the clauses of `n` became `cls` — the old materialisation and the old
+    edges go, the dependencies of all remaining clauses are registered, `n`'s dependents are invalidated. -/
+def Inc.reindex (i : Inc) (n : Name) (cls : List Clause) : Inc :=
+  let i1 := i.remove n
+  let i2 := if cls.isEmpty then i1 else i1.register n (allDeps cls n)
+  i2.notify n
 
 /-! ### steps -/
 
@@ -407,11 +426,15 @@ def regCls (s : St) (c : Clause) : List Clause :=
   | none => [c]
 
 /-- `KnowledgeGraph::register_rule` after the catalogue accepted the clause. -/
-def regApply (autoMatWorks : Bool) (s : St) (c : Clause) : St × Out :=
+def regApply (s : St) (c : Clause) : St × Out :=
   let n := c.head.rel
   let s1 : St := { s with catalog := aset s.catalog n (regCls s c) }
-  let s2 : St := mapInc s1 fun i => autoMat autoMatWorks s1 (i.register n (clauseDeps c)) n
-  (publish s2, if (aget s.catalog n).isSome then .regAdded (regCls s c).length else .regCreated)
+  (publish (mapInc s1 fun i => i.reindex n (regCls s c)),
+    if (aget s.catalog n).isSome then .regAdded (regCls s c).length else .regCreated)
+
+/-- `enable_incremental`: a new engine that knows every rule of the catalogue. -/
+def enableInc (s : St) : Inc :=
+  s.catalog.foldl (fun i p => if p.2.isEmpty then i else i.register p.1 (allDeps p.2 p.1)) { hasIndex := true }
 
 /-- `clear_relations_by_prefix`: the non-empty stored relations with the prefix, sorted, with counts. -/
 def clrpHit (s : St) (pre : Name) : List (Name × Nat) :=
@@ -422,7 +445,11 @@ def clrpHit (s : St) (pre : Name) : List (Name × Nat) :=
 def clrpFacts (s : St) (pre : Name) : List (Name × List Tup) :=
   s.facts.map fun p => (p.1, if (akeys (clrpHit s pre)).contains p.1 then [] else p.2)
 
-def step (autoMatWorks : Bool) (s : St) : Step → St × Out
+/-- `drop_by_prefix`: the catalogued names with the prefix, sorted. -/
+def droppNames (s : St) (pre : Name) : List Name :=
+  sortNames ((akeys s.catalog).filter fun k => pre.isPrefixOf k)
+
+def step (s : St) : Step → St × Out
   | .ins r ts =>
     if ts.isEmpty then (s, .ins 0 0)
     else match insRefused s r ts with
@@ -440,41 +467,45 @@ def step (autoMatWorks : Bool) (s : St) : Step → St × Out
   | .reg c =>
     match regRefused s c with
     | some k => (s, .regErr k)
-    | none => regApply autoMatWorks s c
+    | none => regApply s c
   | .rmc n k =>
     match aget s.catalog n with
     | none => (s, .rmcErr .missing)
     | some cs =>
       if k ≥ cs.length then (s, .rmcErr .bounds)
       else
-        let cs' := removeAt cs k
-        if cs'.isEmpty then (publish { s with catalog := aerase s.catalog n }, .rmcDeleted)
-        else (publish { s with catalog := aset s.catalog n cs' }, .rmcRemoved)
+        if (removeAt cs k).isEmpty then
+          (publish (mapInc { s with catalog := aerase s.catalog n } fun i => i.reindex n []), .rmcDeleted)
+        else
+          (publish (mapInc { s with catalog := aset s.catalog n (removeAt cs k) } fun i => i.reindex n (removeAt cs k)),
+            .rmcRemoved)
   | .rep n k c =>
     match aget s.catalog n with
     | none => (s, .repErr .missing)
     | some cs =>
       if k ≥ cs.length then (s, .repErr .bounds)
-      else (publish { s with catalog := aset s.catalog n (replaceAt cs k c) }, .repOk)
+      else if !(clauseSafe c) then (s, .repErr .notSafe)
+      else
+        (publish (mapInc { s with catalog := aset s.catalog n (replaceAt cs k c) } fun i => i.reindex n (replaceAt cs k c)),
+          .repOk)
   | .clr n =>
     match aget s.catalog n with
     | none => (s, .clrErr .missing)
-    | some _ => (publish { s with catalog := aset s.catalog n [] }, .clrOk)
+    | some _ => (publish (mapInc { s with catalog := aset s.catalog n [] } fun i => i.reindex n []), .clrOk)
   | .drop n =>
     match aget s.catalog n with
     | none => (s, .dropErr .missing)
-    | some _ => (publish (mapInc { s with catalog := aerase s.catalog n } (·.remove n)), .dropOk)
+    | some _ => (publish (mapInc { s with catalog := aerase s.catalog n } fun i => i.reindex n []), .dropOk)
   | .dropp pre =>
-    let names := sortNames ((akeys s.catalog).filter fun k => pre.isPrefixOf k)
-    if names.isEmpty then (s, .dropp [])
+    if (droppNames s pre).isEmpty then (s, .dropp [])
     else
-      let s1 : St := { s with catalog := s.catalog.filter fun p => !(pre.isPrefixOf p.1) }
-      (publish (mapInc s1 fun i => names.foldl Inc.remove i), .dropp names)
+      let s1 : St := { s with catalog := (droppNames s pre).foldl aerase s.catalog }
+      (publish (mapInc s1 fun i => (droppNames s pre).foldl (fun i n => i.reindex n []) i), .dropp (droppNames s pre))
   | .drel r =>
     if (aget s.arity r).isNone && (aget s.facts r).isNone && (aget s.catalog r).isNone then (s, .drelErr .missing)
     else
       let s1 : St := { s with facts := aerase s.facts r, arity := aerase s.arity r, catalog := aerase s.catalog r }
-      (publish (mapInc s1 (·.remove r)), .drelOk)
+      (publish (mapInc s1 fun i => (i.notify r).remove r), .drelOk)
   | .clrp pre =>
     if (clrpHit s pre).isEmpty then (s, .clrp [])
     else
@@ -482,33 +513,30 @@ def step (autoMatWorks : Bool) (s : St) : Step → St × Out
       (publish (mapInc s1 fun i => (akeys (clrpHit s pre)).foldl Inc.notify i), .clrp (clrpHit s pre))
   | .idx =>
     match s.inc with
-    | none => ({ s with inc := some { hasIndex := true } }, .idxOk)
+    | none => ({ s with inc := some (enableInc s) }, .idxOk)
     | some i => if i.hasIndex then (s, .idxErr) else ({ s with inc := some { i with hasIndex := true } }, .idxOk)
   | .idxdrop =>
     match s.inc with
     | none => (s, .idxdropErr)
     | some i => if i.hasIndex then ({ s with inc := some { i with hasIndex := false } }, .idxdropOk) else (s, .idxdropErr)
   | .mat n ar =>
-    let ts := answer (fresh s) ⟨n, allVars ar⟩
     match s.inc with
     | none => (s, .matOff)
-    | some i => (publish { s with inc := some (i.setMat n ts) }, .mat ts)
+    | some i => (publish { s with inc := some (i.setMat n (answer (fresh s) ⟨n, allVars ar⟩)) },
+        .mat (answer (fresh s) ⟨n, allVars ar⟩))
   | .q a => (s, .q (answer (snapDb s) a) (answer (fresh s) a))
   | .m =>
     (s, .m (s.inc.map fun i => { mats := validMats i, b2d := i.b2d, compiled := i.compiled }))
 
-/-- the behaviour of the pinned tree. -/
-def codeAutoMat : Bool := false
-
-def runFrom (am : Bool) : St → List Step → St
+def runFrom : St → List Step → St
   | s, [] => s
-  | s, st :: l => runFrom am (step am s st).1 l
+  | s, st :: l => runFrom (step s st).1 l
 
-def run (h : List Step) : St := runFrom codeAutoMat init h
+def run (h : List Step) : St := runFrom init h
 
-def outsFrom (am : Bool) : St → List Step → List Out
+def outsFrom : St → List Step → List Out
   | _, [] => []
-  | s, st :: l => let r := step am s st; r.2 :: outsFrom am r.1 l
+  | s, st :: l => let r := step s st; r.2 :: outsFrom r.1 l
 
 /-- same tuples, as sets. -/
 def SetEq (a b : List Tup) : Prop := ∀ t, t ∈ a ↔ t ∈ b
@@ -523,7 +551,7 @@ def factsDb (s : St) (r : Name) : List Tup := (aget s.facts r).getD []
 
 /-- The API's own contract for one step, checked in the state the step is applied to: only a
     relation that currently has clauses is materialised, and with its complete current extension;
-    a rule head carries no stored tuples. -/
+    a rule head carries no stored tuples; a replacement clause keeps the head. -/
 def stepWellUsed (s : St) : Step → Bool
   | .mat n ar => !(clausesNow s n).isEmpty && setEqb (answer (fresh s) ⟨n, allVars ar⟩) (fresh s n)
   | .reg c => (factsDb s c.head.rel).isEmpty
@@ -532,76 +560,12 @@ def stepWellUsed (s : St) : Step → Bool
 
 def wellUsed : St → List Step → Bool
   | _, [] => true
-  | s, st :: l => stepWellUsed s st && wellUsed (step codeAutoMat s st).1 l
+  | s, st :: l => stepWellUsed s st && wellUsed (step s st).1 l
 
-/-- every body relation of every current clause of `n` has its `base_to_derived` edge to `n`. -/
-def edgesOk (s : St) (i : Inc) (n : Name) : Bool :=
-  (clausesNow s n).all fun c => (bodyRels c).all fun r => ((aget i.b2d r).getD []).contains n
-
-/-- `n` has no valid materialisation. -/
-def notValid (s : St) (n : Name) : Bool :=
-  match s.inc with
-  | none => true
-  | some i => !(isValid i n)
-
-/-- no valid materialisation belongs to a rule that reads `r` directly. -/
-def noValidReads (s : St) (r : Name) : Bool :=
-  match s.inc with
-  | none => true
-  | some i => (validMats i).all fun p => !(((clausesNow s p.1).flatMap bodyRels).contains r)
-
-/-- Side conditions of `C18_partial` for one step, relative to a set `B` of base-relation names.
-    Each conjunct excludes one named situation:
-    * rules read base relations only, heads are not base relations   (derived_on_derived_no_cascade)
-    * no clause is added/removed/replaced/cleared under a valid materialisation (rule_edit_no_invalidate)
-    * no relation is dropped under a valid materialisation that reads it   (drop_relation_no_invalidate)
-    * a relation is materialised only when all its dependency edges are registered (dependency_edge_missing)
-    plus the API contract `stepWellUsed`. -/
-def stepSafe (B : List Name) (s : St) : Step → Bool
-  | .ins r _ => B.contains r
-  | .reg c => !(B.contains c.head.rel) && (bodyRels c).all (B.contains ·) && notValid s c.head.rel
-  | .rep n _ c => c.head.rel == n && !(B.contains n) && (bodyRels c).all (B.contains ·) && notValid s n
-  | .rmc n _ => notValid s n
-  | .clr n => notValid s n
-  | .drel r => noValidReads s r
-  | .mat n ar => !(B.contains n) && stepWellUsed s (.mat n ar) &&
-      (match s.inc with | some i => edgesOk s i n | none => true)
-  | _ => true
-
-/-- every evaluation the state can be asked for reached its fix-point (all rules over the facts, the
-    snapshot's prefix over its inputs, each head's own clauses over the facts). -/
+/-- every evaluation the state can be asked for reached its fix-point within the evaluator's fuel
+    (all rules over the facts; the snapshot's prefix over its inputs). Always true: `conv_always`
+    (Lemmas/IncrFuel.lean); the driver still asserts it on every visited state. -/
 def convState (s : St) : Bool :=
-  conv (allRules s.catalog) s.facts && conv s.snap.rules s.snap.inputs &&
-  (akeys s.catalog).all fun n => conv (clausesNow s n) s.facts
-
-/-- body relations are base relations or the clause's own head (self-recursion). -/
-def bodyOk (B : List Name) (c : Clause) : Bool :=
-  (bodyRels c).all fun r => B.contains r || r == c.head.rel
-
-def edgesOkRec (s : St) (i : Inc) (n : Name) : Bool :=
-  (clausesNow s n).all fun c => (bodyRels c).all fun r => r == n || ((aget i.b2d r).getD []).contains n
-
-/-- `stepSafe` with self-recursive rules admitted. -/
-def stepSafeRec (B : List Name) (s : St) : Step → Bool
-  | .ins r _ => B.contains r
-  | .reg c => !(B.contains c.head.rel) && bodyOk B c && notValid s c.head.rel
-  | .rep n _ c => c.head.rel == n && !(B.contains n) && bodyOk B c && notValid s n
-  | .rmc n _ => notValid s n
-  | .clr n => notValid s n
-  | .drel r => noValidReads s r
-  | .mat n ar => !(B.contains n) && stepWellUsed s (.mat n ar) &&
-      (match s.inc with | some i => edgesOkRec s i n | none => true)
-  | _ => true
-
-/-- `safe` for the self-recursive fragment; additionally every visited state's evaluations converged
-    (decidable; for non-recursive rule sets it is a theorem, `conv_oneLevel`). -/
-def safeRec (B : List Name) : St → List Step → Bool
-  | _, [] => true
-  | s, st :: l =>
-    stepSafeRec B s st && convState (step codeAutoMat s st).1 && safeRec B (step codeAutoMat s st).1 l
-
-def safe (B : List Name) : St → List Step → Bool
-  | _, [] => true
-  | s, st :: l => stepSafe B s st && safe B (step codeAutoMat s st).1 l
+  conv (allRules s.catalog) s.facts && conv s.snap.rules s.snap.inputs
 
 end ILV.C18
